@@ -87,8 +87,11 @@ theorem IENAM_unpack_eq (s t : MState) (h : IENAM_WF s) :
 /-- `IENAM.pack` emits the IENA layout around the concatenated parameter encodings -/
 theorem IENAM_pack_layout (s : MState) (h : IENAM_WF s) :
     (MState.pack s).2 = .ok (Spec.IENA.encode s.base.key s.base.timeusec s.base.keystatus s.base.status
-      s.base.sequence s.base.endfield (s.parameters.flatMap encMb)) := by
-  rw [IENAM_pack_eq s h]
+      s.base.sequence s.base.endfield
+      (s.parameters.flatMap fun p => Spec.IENAM.encodeParam p.paramid p.delay p.dataset)) := by
+  have hfun : (fun p : MParam => Spec.IENAM.encodeParam p.paramid p.delay p.dataset) = encMb := by
+    funext p; exact (IENAM_param_layout p).symm
+  rw [IENAM_pack_eq s h, hfun]
   have := IENA_pack_layout (IENAM_base s) h.2
   rw [IENA_pack_eq _ h.2] at this
   exact this
